@@ -4,6 +4,7 @@ import (
 	"bytes"
 	"encoding/binary"
 	"fmt"
+	"os"
 	"strings"
 
 	"github.com/golang/protobuf/proto"
@@ -108,7 +109,8 @@ func (g *G) bigFrames() {
 		f := genFrame{hasVer: true, ver: []byte(v), body: g.bytes(3, 3)}
 		g.emit("pbs %s -1 eof %d %s", framesTok([]genFrame{f, small}), g.intn(17), compactBytes(streamOf([]genFrame{f, small})))
 	}
-	if !g.thorough() {
+	if !g.thorough() || os.Getenv("LOWHARNESS_EXTRA_SEED") == "1" {
+		// (the thorough tier generates from several seeds: the multi-megabyte frames only from the first)
 		return
 	}
 	// bodies beyond 2 MiB and 4 MiB: followed by another frame, read in medium-sized chunks; cut inside the body
